@@ -11,7 +11,7 @@ argument (new_id < n at every store, new_id = n at the end) that z3 cannot do by
 """
 import z3
 
-from pyvc import ext_C05
+from pyvc import ext_C05, ext_C05_frame
 from pyvc.spec import Registry
 from pyvc.values import Obj, PList, SArr, Sym, fresh_name, to_z3, zint
 
@@ -259,6 +259,25 @@ def register_users(R):
 
     cols = dict(COLS)
     cols[EXTRA] = "real"
+    # The table forms are verified on frames whose columns carry numpy DTYPES (pyvc/ext_C05_frame.py): the seven SWC columns as pandas reads
+    # them (int64 / float64), the real extra column `w`, and per variant further extra columns of every dtype family.  "every per-node column,
+    # including extra columns" is then a statement about int64 / uint64 / float32 / bool / object columns as well, and an operation that
+    # pushes the table through ONE array (to_numpy) is judged by what the casts do to each of them.
+    SWC_DT = dict(id="int64", type="int64", x="float64", y="float64", z="float64", r="float64", pid="int64")
+    SWC_DT[EXTRA] = "float64"
+    FRAMES = {
+        "extras:int64": dict(SWC_DT, u="int64"),
+        "extras:uint64,float32": dict(SWC_DT, q="uint64", f="float32"),
+        "extras:bool,object": dict(SWC_DT, u="int64", b="bool", s=object),
+    }
+
+    def typed(dt, frozen=False, size=None):
+        def mk(S):
+            df = ext_C05_frame.typed_frame(S, dt, n=size)
+            df.frozen = frozen
+            return dict(df=df, names=None)
+
+        return mk
 
     def impl_call(E, n=None):
         calls = [kw for nm, kw in E.call_log if nm == "sort_nodes_impl"]
@@ -346,7 +365,7 @@ def register_users(R):
         return f
 
     R.add(f"{NORM}:sort_nodes_", prop="C05",
-          setup=lambda S: dict(df=S.dframe(cols), names=None),
+          variants={**{k: typed(dt) for k, dt in FRAMES.items()}, **{f"{k},rows=3": typed(dt, size=3) for k, dt in list(FRAMES.items())[:1]}},
           requires=pre_clauses(lambda v: (v["df"].cols["id"].arr, v["df"].cols["pid"].arr, zint(v["df"].n))),
           modifies=["df"],
           options=dict(models=ext_C05.MODELS),
@@ -378,7 +397,7 @@ def register_users(R):
         return df
 
     R.add(f"{NORM}:sort_nodes", prop="C05",
-          setup=lambda S: dict(df=frozen_frame(S), names=None),
+          variants={k: typed(dt, frozen=True) for k, dt in FRAMES.items()},
           requires=pre_clauses(lambda v: (v["df"].cols["id"].arr, v["df"].cols["pid"].arr, zint(v["df"].n))),
           options=dict(models=ext_C05.MODELS),
           ensures=[(w, on_result(df_post(w))) for w in SHAPES]
